@@ -122,6 +122,22 @@ theorem detach_refines (h : Heap) (s : Handle) (wf : WF h s) :
   let ⟨h', s', h1, h2, h3, _⟩ := detach_spec h s wf
   ⟨h', s', h1, h2, h3⟩
 
+/-- where the detached value starts inside its buffer does not depend on the ownership situation: it is
+    always bit 0 (since repair e3b1a9c; before it a uniquely owned slice kept its start and a shared one
+    was rebased, which `open-bitstr` + `offset` made visible) -/
+theorem detach_start_is_zero (h h' : Heap) (s s' : Handle) (e : detach h s = .ok (h', s')) : s'.start = 0 := by
+  unfold detach at e
+  split at e
+  · rename_i hc
+    simp only [Bool.and_eq_true, beq_iff_eq] at hc
+    cases e; exact hc.2
+  · split at e
+    · cases e; rfl
+    · split at e
+      · cases e; rfl
+      · cases e
+      · cases e
+
 /-- `detach` changes the bits of no existing handle (any handle into an already allocated buffer) -/
 theorem detach_isolation (h : Heap) (s : Handle) (wf : WF h s) (t : Handle) (ht : t.buf < h.next) :
     ∃ h' s', detach h s = .ok (h', s') ∧ bits h' t = bits h t :=
